@@ -406,12 +406,7 @@ func (t *T) IsMatchUnionType(targetT *T) bool {
 			return true
 		}
 
-		for _, tType := range tTypes {
-			if !slices.Contains(targetTypes, tType) {
-				return false
-			}
-		}
-
+		// every variant of the value is one of t's variants; t may have more
 		for _, targetType := range targetTypes {
 			if !slices.Contains(tTypes, targetType) {
 				return false
